@@ -276,6 +276,7 @@ Ltac solve_upd r1 :=
 
 Ltac cf_peel :=
   lazymatch goal with
+  | |- cf _ ?a ?a => idtac
   | |- cf _ _ (put_pr ?r1 _ _) => apply (cf_same _ _ r1); [solve_upd r1|solve_upd r1|]; cf_peel
   | |- cf _ _ (set_conf_prs ?r1 _ _) => apply (cf_same _ _ r1); [solve_upd r1|solve_upd r1|]; cf_peel
   | |- cf _ _ (set _ _ ?r1) => apply (cf_same _ _ r1); [solve_upd r1|solve_upd r1|]; cf_peel
@@ -557,6 +558,7 @@ Section Helpers.
 
   Ltac wf_peel :=
     lazymatch goal with
+    | |- wf ?a ?a => idtac
     | |- wf _ (put_pr ?r1 _ _) => apply (wf_same _ r1); [solve_upd r1|solve_upd r1|left; solve_upd r1|]; wf_peel
     | |- wf _ (set_conf_prs ?r1 _ _) => apply (wf_same _ r1); [solve_upd r1|solve_upd r1|left; solve_upd r1|]; wf_peel
     | |- wf _ (set _ _ ?r1) =>
@@ -1083,6 +1085,7 @@ Ltac cft_fwd :=
 
 Ltac wft_peel :=
   lazymatch goal with
+  | |- wf _ ?a ?a => idtac
   | |- wf _ _ (put_pr ?r1 _ _) =>
       apply (wf_same MsgTimeoutNow _ r1); [solve_upd r1|solve_upd r1|left; solve_upd r1|]; wft_peel
   | |- wf _ _ (set_conf_prs ?r1 _ _) =>
@@ -1672,4 +1675,94 @@ Proof.
   assert (E : r_election_timeout r' = r_election_timeout r).
   { unfold cfg in A. inversion A. reflexivity. }
   lia.
+Qed.
+
+(* ------------------------------------------------------------------ *)
+(* Theorem 4 *)
+
+Lemma become_leader_clears r r' : become_leader r = Ok r' ->
+  r_lead_transferee r' = None /\ r_election_elapsed r' = 0 /\ r_state r' = Leader.
+Proof.
+  unfold become_leader. intros H. destruct (role_eqb (r_state r) Follower); [discriminate|].
+  inv_bind H. apply reset_clears in Hx. destruct Hx as [A B].
+  match type of H with (if ?c then _ else _) = _ => destruct c end; [discriminate|].
+  match type of H with match ?d with _ => _ end = _ => destruct d end; [|discriminate].
+  inv_bind H. destruct x0 as [r6 ok]. destruct ok; [|discriminate]. inversion H; subst; clear H.
+  apply append_entry_tn in Hx.
+  match type of Hx with cf _ ?r5 _ =>
+    assert (K : cf MsgTimeoutNow (x <| r_leader_id := r_id x |> <| r_state := Leader |>) r5)
+      by cf_solve
+  end.
+  pose proof (cf_trans _ _ _ _ K Hx) as [_ L]. apply ctl_fields in L.
+  destruct L as (L1 & L2 & L3 & _). cbn in L1, L2, L3. repeat split; congruence.
+Qed.
+
+Theorem transfer_cleared_on_reset :
+  (forall r t r', reset r t = Ok r' -> r_lead_transferee r' = None) /\
+  (forall r t l r', become_follower r t l = Ok r' -> r_lead_transferee r' = None) /\
+  (forall r r', become_candidate r = Ok r' -> r_lead_transferee r' = None) /\
+  (forall r r', become_leader r = Ok r' -> r_lead_transferee r' = None).
+Proof.
+  repeat split; intros.
+  - eapply reset_clears; eassumption.
+  - eapply become_follower_clears; eassumption.
+  - eapply become_candidate_clears; eassumption.
+  - eapply become_leader_clears; eassumption.
+Qed.
+
+(* post_conf_change.  The transfer check is reached exactly when the node is a leader that
+   is still a voter of a configuration with at least one voter; then a surviving transfer
+   target is a voter of the (new) configuration.  Otherwise nothing but [promotable]
+   changes. *)
+Definition pcc_reaches_check (r : raft) : Prop :=
+  is_leader r = true /\ voters_contains (conf_of r) (r_id r) = true /\
+  cs_voters (to_conf_state (conf_of r)) <> [].
+
+Theorem transfer_cleared_when_target_removed r r' cs :
+  post_conf_change r = Ok (r', cs) ->
+  conf_of r' = conf_of r /\
+  (pcc_reaches_check r ->
+     forall t, r_lead_transferee r' = Some t ->
+       r_lead_transferee r = Some t /\ voters_contains (conf_of r') t = true) /\
+  (~ pcc_reaches_check r ->
+     r' = r <| r_promotable := voters_contains (conf_of r) (r_id r) |>).
+Proof.
+  intros H. apply post_conf_change_shape_tn in H.
+  destruct H as [-> [[-> Hc]|(H1 & H2 & H3 & r3 & A & ->)]].
+  - split; [reflexivity|]. split.
+    + intros (K1 & K2 & K3). destruct Hc as [Hc|[Hc|Hc]]; congruence.
+    + reflexivity.
+  - destruct A as [_ A]. apply ctl_fields in A.
+    destruct A as (_ & A2 & _ & _ & _ & _ & _ & _ & _ & _ & _ & A12).
+    assert (Hconf : conf_of (pcc_check r3) = conf_of r3).
+    { unfold pcc_check. destruct (r_lead_transferee r3); [|reflexivity].
+      destruct (negb _); reflexivity. }
+    split; [congruence|]. split.
+    + intros _ t Ht. rewrite Hconf. unfold pcc_check in Ht.
+      destruct (r_lead_transferee r3) as [e|] eqn:E; [|congruence].
+      destruct (voters_contains (conf_of r3) e) eqn:Ev; cbn [negb] in Ht.
+      * rewrite E in Ht. inversion Ht; subst. split; [congruence|exact Ev].
+      * cbn in Ht. discriminate.
+    + intros K. exfalso. apply K. repeat split; assumption.
+Qed.
+
+(* the same through Raft::apply_conf_change, with the NEW configuration *)
+Theorem apply_conf_change_clears_removed_target r cc r' cs :
+  raft_apply_conf_change r cc = Ok (r', Some cs) ->
+  is_leader r = true -> voters_contains (conf_of r') (r_id r) = true -> cs_voters cs <> [] ->
+  forall t, r_lead_transferee r' = Some t ->
+    r_lead_transferee r = Some t /\ voters_contains (conf_of r') t = true.
+Proof.
+  intros H Hl Hv Hcs t Ht. unfold raft_apply_conf_change in H.
+  match type of H with match ?d with _ => _ end = _ => destruct d as [[c' chs]|] end;
+    [|discriminate].
+  inv_bind H. inversion H; subst; clear H. destruct x as [r1 cs1]. cbn [fst snd] in *.
+  pose proof (post_conf_change_shape_tn _ _ _ Hx) as [Ecs _].
+  apply transfer_cleared_when_target_removed in Hx. destruct Hx as (A & B & _).
+  rewrite A in Hv. 
+  assert (Hr : pcc_reaches_check (set_conf_prs r c'
+                 (apply_changes (t_progress (r_prs r)) chs (last_index (r_log r))
+                                (t_max_inflight (r_prs r))))).
+  { repeat split; [exact Hl|exact Hv|rewrite <- Ecs; exact Hcs]. }
+  destruct (B Hr t Ht) as [B1 B2]. split; [exact B1|exact B2].
 Qed.
